@@ -8,6 +8,5 @@ CFG = dict(
     nontrivial=_nontrivial,
     assumptions=["unicode.IsLetter / IsNumber are parameters of model and theorems; the completeness theorems assume Sane (the grammar's delimiters * . / : = { } are neither letters nor numbers), which holds for Go's unicode tables; the harness ships, per case, which non-ASCII runes of the case are letters / numbers (computed by Go's unicode package)", 'the protobuf schema is an oracle: which field paths of the request type resolve, which name singular messages (fixed test message verif.rt.Msg, transcribed in ocaml/c01.ml)', 'typed conversion of a capture (parseParam) is an oracle okconv; the routing harness uses string fields and one int32 field', 'a template in which one field is bound by two variables is not generated (Go applies the deepest capture first, so the first variable would win)'],
     trusted=["ocaml/c01.ml transcribes the test message's schema (resolves / body_ok) and Go's int32 text grammar by hand", 'Spec/Template.v (the string-level reading of templates and instances used as SPECFAIL oracle) is not connected by a theorem to Spec/Route.v (the token-level relation the theorems use); both are run against the implementation on every case'],
-    partial='acceptance equivalence under reordering (one order accepted => every order accepted) is decided by the correspondence run over all permutations (registration verdicts compared), not proved; routing equality of two accepted orders IS proved (C02_order_independent)',
     timeout=900,
 )
